@@ -171,6 +171,11 @@ pub trait Check: Send + Sync {
     fn isolated(&self) -> bool {
         false
     }
+    /// In isolated mode: is a worker process killed by a signal while running a case a violation
+    /// (an abort during valid API use) or merely "reported abnormally" (C12: damaged input)?
+    fn abort_is_violation(&self) -> bool {
+        true
+    }
     /// Total libFuzzer executions in the thorough tier (0 = no coverage-guided stage)
     fn fuzz_runs(&self) -> u64 {
         0
@@ -564,6 +569,23 @@ fn seed_bytes(seed: u64, worker: u64, stage: u64) -> [u8; 32] {
     b
 }
 
+/// Decode and re-run a tape for the replay file. In isolated mode this happens in a child process,
+/// because re-running a failing tape may abort the process
+fn render_safely(check: &dyn Check, tier: Tier, t: &Tape) -> Value {
+    if check.isolated() || std::env::var("VERIF_ISOLATE").is_ok() {
+        let Ok(exe) = std::env::current_exe() else {
+            return json!({"render": "unavailable"});
+        };
+        match std::process::Command::new(exe).arg(check.id()).arg(tier.name()).arg("--render").arg(t.to_hex()).stderr(std::process::Stdio::null()).output() {
+            Ok(o) if o.status.success() => serde_json::from_slice(&o.stdout).unwrap_or_else(|_| json!({"render": "unparsable"})),
+            Ok(o) => json!({"render": format!("the rendering process ended with {:?} (re-running this tape kills the process)", o.status)}),
+            Err(e) => json!({"render": format!("cannot spawn: {e}")}),
+        }
+    } else {
+        catch(|| check.render(t)).unwrap_or_else(|p| json!({"render_panicked": p}))
+    }
+}
+
 pub fn write_replay(check: &dyn Check, seed: u64, tier: Tier, tape: Option<&Tape>, f: &Failure) -> String {
     let dir = format!("{}/replays", verif_root());
     let _ = std::fs::create_dir_all(&dir);
@@ -579,7 +601,7 @@ pub fn write_replay(check: &dyn Check, seed: u64, tier: Tier, tape: Option<&Tape
         "seed": seed,
         "tier": tier.name(),
         "tape": tape.map(|t| t.to_hex()),
-        "decoded": tape.map(|t| catch(|| check.render(t)).unwrap_or_else(|p| json!({"render_panicked": p}))),
+        "decoded": tape.map(|t| render_safely(check, tier, t)),
         "signature": f.signature,
         "mismatch": f.msg,
         "detail": f.detail,
@@ -838,6 +860,12 @@ fn run_isolated(check: &dyn Check, tier: Tier, seed: u64, plan: &Plan, acc: &mut
                         break;
                     }
                     // abnormal end: the in-flight case made the process abort
+                    if check.abort_is_violation() {
+                        let t = in_flight.as_deref().and_then(Tape::from_hex);
+                        fails.push((Failure::new("process-abort", "the worker process was killed by a signal (abort: a panic while already unwinding, inside the code under test) while running this case of valid API use".to_string()), t));
+                        stop.store(true, Ordering::Relaxed);
+                        break;
+                    }
                     local.cases += 1;
                     local.evaluations += 1;
                     *local.classes.entry("case ended by a process abort inside the code under test (double panic): counted as reported abnormally".into()).or_default() += 1;
@@ -902,7 +930,8 @@ pub fn run_check(check: &dyn Check, tier: Tier, seed: u64) -> i32 {
     let budget_cases = AtomicU64::new(0);
     let shared = Mutex::new((Acc::default(), Vec::<(Failure, Option<Tape>)>::new()));
     let only_known_so_far = failures.iter().all(|(f, _)| known.is_known(check.id(), &f.signature).is_some());
-    if only_known_so_far && plan.cases > 0 && check.isolated() {
+    let isolate = check.isolated() || std::env::var("VERIF_ISOLATE").is_ok();
+    if only_known_so_far && plan.cases > 0 && isolate {
         run_isolated(check, tier, seed, &plan, &mut acc, &mut failures);
     } else if only_known_so_far && plan.cases > 0 {
         let workers = plan.workers.max(1);
